@@ -1,8 +1,216 @@
 import BarterModel.Lemmas.Connectors
+/-!
+# C13 — Market-data messages are attributed to the subscribed instrument, or rejected
+
+Statements only (proofs go through `Lemmas/Connectors.lean`). Everything quantifies over **every**
+`(connector, kind)` pair of `supported` (the 21 arms of `DynamicStreams::init`), every list of
+subscribed instruments (any length, any ASCII names, any kinds/expiries/strikes) and every message.
+
+* `p` — the pair; `subs` — the subscribed instruments, the `k`-th one has instrument key `k`;
+* `mapOf p subs` — the instrument map `WebSocketSubMapper::map` builds;
+* `transform p m msg` — `Transformer::transform` of the pair's transformer;
+* hypotheses: `Nodup` of the subscription ids / venue symbols ("pairwise distinct markets": two
+  instruments that the venue itself cannot tell apart are outside the property), and for the
+  connectors that read the id off the first trade of a batch, a non-empty batch.
+
+Bitfinex (which names a numeric channel id instead of the market) has its own pair of theorems.
+-/
 namespace BarterModel.Props.C13
 open BarterModel.Connectors
 
+/-! ## 4. `sep_injective` -/
+
+/-- `channel|m₁ = channel|m₂ → m₁ = m₂`. -/
 theorem sep_injective (c m₁ m₂ : Str) (h : subId c m₁ = subId c m₂) : m₁ = m₂ :=
   subId_injective c m₁ m₂ h
+
+/-- No channel of any pair (and no venue channel) contains `|`, hence `channel|market` decodes
+uniquely: equal ids have equal channels **and** equal markets. -/
+theorem sep_injective_channels (p q : Pair) (ik jk : IKind) (m₁ m₂ : Str)
+    (h : subId (channel p ik) m₁ = subId (channel q jk) m₂) :
+    channel p ik = channel q jk ∧ m₁ = m₂ :=
+  subId_inj_of_no_bar _ _ _ _ (channel_no_bar p ik) (channel_no_bar q jk) h
+
+/-! ## 1. `market_is_venue_symbol` -/
+
+/-- The market string the subscribe side derives for an instrument is the venue's symbol for it —
+for every connector, every ASCII base/quote spelling (any case mix), every instrument kind, expiry
+and strike. (False for Kraken before `fix:` e8d664e and for Okx dated contracts before `fix:`
+ef20a36; holds without hypothesis on the current tree.) -/
+theorem market_is_venue_symbol (e : Exch) (i : Inst) : market e i = venueSymbol e i :=
+  market_eq_venueSymbol e i
+
+/-- … and the subscribe-side channel is the venue's channel for the pair, for every instrument
+kind the dynamic builder lets through (`supports`). -/
+theorem channel_is_venue_channel (p : Pair) (hp : p ∈ supported) (ik : IKind)
+    (hs : supports p ik = true) : channel p ik = venueChannel p :=
+  channel_of_supports p ik hp hs
+
+/-- The payload-side derivation (`de_*_subscription_id`, `Identifier<Option<SubscriptionId>>`)
+yields exactly the subscribe-side id when the payload names the instrument's market (and, where
+the connector reads it, the instrument's channel). -/
+theorem payload_id_agrees (p : Pair) (hp : p ∈ supported) (hb : p.exch ≠ .bitfinex) (i : Inst)
+    (msg : Msg) (hm : msg.market = market p.exch i) (hc : msg.chan = channel p i.kind)
+    (hne : p.exch.needsItem = true → msg.items ≠ []) :
+    payloadId p msg = some (subscriptionId p i) := by
+  rw [payloadId_some p msg hp hb hne, subscriptionId, hm]
+  congr 2
+  unfold payloadChan
+  by_cases hr : p.exch.readsChan = true
+  · simp [hr, hc]
+  · simp only [hr]; exact (channel_const p i.kind hp (by simpa using hr)).symm
+
+/-! ## 2. `attributed` -/
+
+/-- A message for the market of the `k`-th subscribed instrument is transformed into exactly the
+events `events p k msg` — all of which carry key `k` (`events_key_exchange`) and the payload's
+fields (`trade_fields_as_stated` …). -/
+theorem attributed (p : Pair) (hp : p ∈ supported) (hb : p.exch ≠ .bitfinex) (subs : List Inst)
+    (hd : (subs.map (subscriptionId p)).Nodup) (k : Nat) (i : Inst) (hk : subs[k]? = some i)
+    (msg : Msg) (hm : msg.market = market p.exch i) (hc : msg.chan = channel p i.kind)
+    (hne : p.exch.needsItem = true → msg.items ≠ []) :
+    transform p (mapOf p subs) msg = .events (events p k msg) := by
+  simp [transform, payload_id_agrees p hp hb i msg hm hc hne, find_mapOf p subs hd k i hk]
+
+/-- Every event built for key `k` carries key `k` and the connector's exchange id. -/
+theorem events_key_exchange (p : Pair) (k : Nat) (msg : Msg) :
+    ∀ ev ∈ events p k msg, ev.key = k ∧ ev.exch = p.exch := by
+  intro ev hev
+  unfold events at hev
+  cases hk : p.kind <;> simp only [hk] at hev
+  · split at hev
+    · split at hev <;> simp_all
+    · simp only [List.mem_map] at hev; obtain ⟨_, _, rfl⟩ := hev; simp
+  · split at hev <;> simp_all
+  · split at hev <;> simp_all
+  · split at hev <;> simp_all
+
+/-- the `(price, traded quantity, side, time)` of a trade event -/
+def tradeView (ev : Event) : Option SpecTrade :=
+  match ev.kind with
+  | .trade p a s => some ⟨p, absR a, s, ev.time⟩
+  | _ => none
+
+/-- Trades: one event per trade of the payload, in order, with the price and time as stated, the
+traded quantity `|amount|` and the side — the stated side field, or the sign of the amount for the
+venues that sign it (`specTrade`). -/
+theorem trade_fields_as_stated (p : Pair) (hk : p.kind = .publicTrades) (k : Nat) (msg : Msg)
+    (hs : shapeOk p msg = true) :
+    (events p k msg).map tradeView = msg.items.map fun it => some (specTrade p.exch it) := by
+  have key : ∀ it : Item, tradeView ⟨k, p.exch, it.time, tradeOf p.exch it⟩ = some (specTrade p.exch it) := by
+    intro it
+    have habs : absR (absR it.amount) = absR it.amount := by
+      unfold absR; split <;> split <;> grind
+    cases he : p.exch <;>
+      simp [tradeView, tradeOf, specTrade, Exch.signEncodesSide, signSide, habs]
+  unfold events
+  simp only [hk]
+  by_cases hst : p.exch.singleTrade = true
+  · simp only [hst, ↓reduceIte]
+    unfold shapeOk at hs
+    simp only [hk] at hs
+    match hi : msg.items with
+    | [] => simp
+    | [it] => simp [key]
+    | a :: b :: rest =>
+      rw [hi] at hs
+      cases he : p.exch <;> simp_all [Exch.singleTrade]
+  · simp only [hst]
+    simp [List.map_map, Function.comp_def, key]
+
+/-- L1: one event, time of the message, best bid / ask = the stated `(price, amount)` levels
+(a level whose stated price is zero is reported as absent). -/
+theorem l1_fields_as_stated (p : Pair) (hk : p.kind = .orderBooksL1) (k : Nat) (msg : Msg)
+    (b a : Item) (hi : msg.items = [b, a]) :
+    events p k msg = [⟨k, p.exch, b.time, .l1 (level b) (level a)⟩] ∧
+    (b.price ≠ 0 → level b = some (b.price, b.amount)) ∧
+    (a.price ≠ 0 → level a = some (a.price, a.amount)) := by
+  refine ⟨by simp [events, hk, hi], ?_, ?_⟩ <;> intro h <;> simp [level, h]
+
+/-- Liquidations: one event with the stated price, quantity, side and time. -/
+theorem liq_fields_as_stated (p : Pair) (hk : p.kind = .liquidations) (k : Nat) (msg : Msg)
+    (it : Item) (hi : msg.items = [it]) :
+    events p k msg = [⟨k, p.exch, it.time, .liq it.price it.amount it.side⟩] := by
+  simp [events, hk, hi]
+
+/-- L2 updates: one event, the stated bid levels and ask levels. -/
+theorem l2_fields_as_stated (p : Pair) (hk : p.kind = .orderBooksL2) (k : Nat) (msg : Msg)
+    (it : Item) (rest : List Item) (hi : msg.items = it :: rest) :
+    events p k msg = [⟨k, p.exch, it.time,
+      .l2 ((msg.items.filter (·.side = .buy)).map fun i => (i.price, i.amount))
+          ((msg.items.filter (·.side = .sell)).map fun i => (i.price, i.amount))⟩] := by
+  simp [events, hk, hi]
+
+/-! ## 3. `rejected` -/
+
+/-- A message whose `(channel, market)` is not that of any subscribed instrument yields the
+unidentifiable-subscription error carrying the derived id. (`'|' ∉ msg.chan` only matters for the
+connectors that take the channel text from the payload.) -/
+theorem rejected (p : Pair) (hp : p ∈ supported) (hb : p.exch ≠ .bitfinex) (subs : List Inst)
+    (msg : Msg) (hbar : '|' ∉ msg.chan)
+    (hno : ∀ i ∈ subs, ¬ (market p.exch i = msg.market ∧ channel p i.kind = payloadChan p msg))
+    (hne : p.exch.needsItem = true → msg.items ≠ []) :
+    transform p (mapOf p subs) msg = .unidentifiable (subId (payloadChan p msg) msg.market) := by
+  have hid := payloadId_some p msg hp hb hne
+  have hnb : '|' ∉ payloadChan p msg := by
+    unfold payloadChan; split
+    · exact hbar
+    · exact channel_no_bar p .spot
+  have hnot : subId (payloadChan p msg) msg.market ∉ subs.map (subscriptionId p) := by
+    intro hmem
+    obtain ⟨i, hi, heq⟩ := List.mem_map.mp hmem
+    have := subId_inj_of_no_bar _ _ _ _ (channel_no_bar p i.kind) hnb heq
+    exact hno i hi ⟨this.2, this.1⟩
+  simp [transform, hid, find_mapOf_none p subs _ hnot]
+
+/-- … and in no case (also for an empty batch) does such a message produce an event for some
+other instrument. -/
+theorem rejected_never_event (p : Pair) (hp : p ∈ supported) (hb : p.exch ≠ .bitfinex)
+    (subs : List Inst) (msg : Msg) (hbar : '|' ∉ msg.chan)
+    (hno : ∀ i ∈ subs, ¬ (market p.exch i = msg.market ∧ channel p i.kind = payloadChan p msg))
+    (ev : Event) (evs : List Event) :
+    transform p (mapOf p subs) msg ≠ .events (ev :: evs) := by
+  by_cases hne : p.exch.needsItem = true → msg.items ≠ []
+  · rw [rejected p hp hb subs msg hbar hno hne]; intro h; cases h
+  · have hn : p.exch.needsItem = true := by
+      by_cases h : p.exch.needsItem = true
+      · exact h
+      · exact absurd (fun h' => absurd h' h) hne
+    have he : msg.items = [] := by
+      by_cases h : msg.items = []
+      · exact h
+      · exact absurd (fun _ => h) hne
+    simp [transform, payloadId_none_of_empty p msg hp hn he]
+
+/-! ## Refinement to the venue specification (what the `spec` driver runs) -/
+
+/-- For instrument sets the dynamic builder accepts for the pair (`supports`) whose venue symbols
+are pairwise distinct, and a message on the pair's venue channel naming market `m`:
+the transformer does exactly what the property's attribution rule (`specVerdict`, defined on venue
+symbols only) demands — events for the one instrument the venue lists under `m`, or the
+unidentifiable error when there is none; the verdict is never `ambiguous`. -/
+theorem refines_spec (p : Pair) (hp : p ∈ supported) (hb : p.exch ≠ .bitfinex) (subs : List Inst)
+    (hs : ∀ i ∈ subs, supports p i.kind = true)
+    (hd : (subs.map (venueSymbol p.exch)).Nodup)
+    (msg : Msg) (hc : msg.chan = venueChannel p)
+    (hne : p.exch.needsItem = true → msg.items ≠ []) :
+    match specVerdict p.exch subs msg.market with
+    | .attributed k => transform p (mapOf p subs) msg = .events (events p k msg)
+    | .rejected => ∃ id, transform p (mapOf p subs) msg = .unidentifiable id
+    | .ambiguous => False := by
+  by_cases hmem : msg.market ∈ subs.map (venueSymbol p.exch)
+  · obtain ⟨i, hi, hsym⟩ := List.mem_map.mp hmem
+    obtain ⟨k, hk⟩ := List.getElem?_of_mem hi
+    have hh := holdersFrom_unique p.exch 0 subs msg.market hd k i hk hsym
+    simp only [specVerdict, holders, hh, Nat.zero_add]
+    apply attributed p hp hb subs (ids_nodup_of_symbols p subs hp hs hd) k i hk msg
+    · rw [market_eq_venueSymbol, hsym]
+    · rw [hc, channel_of_supports p i.kind hp (hs i hi)]
+    · exact hne
+  · have hh := holdersFrom_none p.exch 0 subs msg.market hmem
+    simp only [specVerdict, holders, hh]
+    refine ⟨_, rejected p hp hb subs msg (hc ▸ venueChannel_no_bar p) ?_ hne⟩
+    intro i hi ⟨h1, _⟩
+    exact hmem (List.mem_map.mpr ⟨i, hi, by rw [← market_eq_venueSymbol, h1]⟩)
 
 end BarterModel.Props.C13
